@@ -45,6 +45,7 @@ def violators (e : Env) (s : State) : List (String × String × List String) :=
     ("C17", "sidPayAddrBound", if sidPayAddrBound s.did then [] else ["did"]),
     ("C17", "keyPayAddrSelf", if keyPayAddrSelf s.did then [] else ["did"]),
     ("C06", "solventOrder", if solventOrder e s then [] else ["order-escrow"]),
+    ("C06", "solventMarket", if solventMarket e s then [] else ["market-escrow"]),
     ("C06", "solventNode", if solventNode e s then [] else ["node-escrow"]),
     ("C06", "solventNodeByShards", if solventNodeByShards e s then [] else ["node-escrow"]) ]
 
